@@ -88,7 +88,23 @@ impl ErrorType for Spi {
 }
 impl SpiDevice<u8> for Spi {
     async fn transaction(&mut self, ops: &mut [Operation<'_, u8>]) -> Result<(), SpiErr> {
-        let mut b = self.0.borrow_mut();
+        bus_transaction(&mut self.0.borrow_mut(), ops)
+    }
+}
+
+/// the same bus for a blocking driver (Semtech's reference driver through smtc-modem-cores)
+pub struct RefSpi(pub Rc<RefCell<Bus>>);
+impl embedded_hal::spi::ErrorType for RefSpi {
+    type Error = SpiErr;
+}
+impl embedded_hal::spi::SpiDevice<u8> for RefSpi {
+    fn transaction(&mut self, ops: &mut [Operation<'_, u8>]) -> Result<(), SpiErr> {
+        bus_transaction(&mut self.0.borrow_mut(), ops)
+    }
+}
+
+pub fn bus_transaction(b: &mut Bus, ops: &mut [Operation<'_, u8>]) -> Result<(), SpiErr> {
+    {
         if b.tick() {
             b.trace.push("SPI!".into());
             return Err(SpiErr);
@@ -165,7 +181,14 @@ impl SpiDevice<u8> for Spi {
                     if a == 0x0d {
                         b.fifo_ptr = written[1];
                     }
-                    if a == 0x12 {
+                    if a == 0 {
+                        // FIFO write at the address pointer
+                        for v in written[1..].iter() {
+                            let p = b.fifo_ptr;
+                            b.chipbuf[p as usize] = *v;
+                            b.fifo_ptr = p.wrapping_add(1);
+                        }
+                    } else if a == 0x12 {
                         // RegIrqFlags: writing a 1 clears the flag
                         b.regs[0x12] &= !written[1];
                     } else if a != 0 {
